@@ -1210,7 +1210,7 @@ func c18Cap(v, m int) int {
 // the unit
 
 func TestVerifC18Balance(t *testing.T) {
-	kit.Run(t, kit.Config{Property: "C18", Unit: "balance", Quick: 1500, Thorough: 20000,
+	kit.Run(t, kit.Config{Property: "C18", Unit: "balance", Quick: 1500, Thorough: 400000,
 		Rule: "one case = one generated cluster (2-8 nodes, allocatable in multiples of 100 units, 1-2 node pools with absolute or deviation thresholds over cpu/memory/pods, optional prod thresholds, anomaly condition nil/1/2/3, NodeFit on/off, NumberOfNodes 0-2) balanced for 1-7 successive rounds by one real LowNodeLoad; per round every node draws a sticky role per pass (over/under/between) and usages are placed on, one unit beside, 1 % beside or at random distance from the thresholds; NodeMetrics missing/stale/without status; 0-10 pods per node with/without pod metrics, prod/batch, scripted evictor (filter never / until k-th eviction, Evict refused per pod or after a cap). distinct = (threshold mode, thresholded resources, anomaly need, streak, over-by pass, pod kind, outcome, attempts) per Evict call plus the end state per source node and the per-pool classification; non-trivial = a case in which at least one Evict call was checked"},
 		func(c *kit.Case) { c18Case(c) })
 }
